@@ -732,6 +732,20 @@ class Evaluator:
     def depth(self, v):
         (self.__dict__.get("_root") or self).__dict__["_depth"] = v
 
+    # every other attribute (policies, logs, models, whatever state a rule's evaluator keeps) is the root's: read and written there
+    def __getattr__(self, k):
+        root = self.__dict__.get("_root")
+        if root is not None and not k.startswith("__"):
+            return getattr(root, k)
+        raise AttributeError(k)
+
+    def __setattr__(self, k, v):
+        root = self.__dict__.get("_root")
+        if root is not None and k not in self._OWN_KEYS:
+            setattr(root, k, v)
+        else:
+            object.__setattr__(self, k, v)
+
     _OWN_KEYS = ("mod", "_root", "_depth", "_modconst", "_modconst_busy", "_family", "_home_evaluators", "_locals_stack", "_pre", "call_policy",
                  "inline", "depth", "current_fn")
 
@@ -751,8 +765,8 @@ class Evaluator:
         sub = fam.get(modobj.rel)
         if sub is None:
             sub = object.__new__(type(root))
+            sub.__dict__["_root"] = root
             sub.mod = modobj
-            sub._root = root
             sub.inline = True
             sub.current_fn = None
             fam[modobj.rel] = sub
@@ -769,9 +783,9 @@ class Evaluator:
                     return NotImplemented
                 sub.call_policy = forward
         for k, v in root.__dict__.items():
-            if k not in self._OWN_KEYS:
+            # a method a rule replaced on its evaluator (ev._np_call = hook) is replaced for the whole family
+            if k not in self._OWN_KEYS and hasattr(type(root), k):
                 sub.__dict__[k] = v
-        sub.depth = self.depth
         return sub
 
     def home_evaluator(self, node):
@@ -2329,7 +2343,7 @@ class Evaluator:
         return NotImplemented
 
     def module_call(self, name, args, kwargs, node):
-        root = getattr(self, "_root", None)
+        root = self.__dict__.get("_root")
         if root is not None and name in self.mod.functions and root.mod.functions.get(name) is self.mod.functions[name] \
                 and not is_helper(root.mod, name):
             root.depth = self.depth
@@ -2337,8 +2351,11 @@ class Evaluator:
         if is_helper(self.mod, name):
             # not an anchor of the pinned API: seen through, invisible to call policies and call logs
             return self._call_fn(self.mod.func(name), args, kwargs)
-        self.calls.append((name, [vkey(a) for a in args], node.lineno))
-        self.events.append(("call", name, list(args)))
+        if root is None:
+            # (inside another module of the family the call is no call of the root's module: the forwarding policy logs it as
+            # the import event `module.name`)
+            self.calls.append((name, [vkey(a) for a in args], node.lineno))
+            self.events.append(("call", name, list(args)))
         if self.call_policy is not None:
             r = self.call_policy(name, args, kwargs, node)
             if r is not NotImplemented:
